@@ -63,7 +63,7 @@ Theorem C16_history_refines_spec : forall std smol lifetime qt, qt_pos qt -> 0 <
   Forall2 (fun q o => exists queue_k pre, queue = pre ++ queue_k /\
              o = outcome_of (spec_udp (good_of std q) (exchange_fuel lifetime) (tq_start q) lifetime qt
                                (filter (answers (good_of std q)) queue_k)))
-          qs (udp_history std smol lifetime qt zero_jit qs queue).
+          qs (udp_history std smol lifetime qt zero_jit zero_jit qs queue).
 Proof. exact history_refines_spec. Qed.
 
 (* a concrete history on one client: query 1 ("a." A, id 0x1234, at 1000) times out after two
@@ -78,7 +78,7 @@ Definition ex_qs : list tquery :=
     {| tq_id := 4662; tq_name := ["a"%byte; "."%byte]; tq_type := 1; tq_class := 1; tq_start := 3000 |} ].
 Definition ex_queue : list arrival := [(1700, ex_resp x12 x34 "a"); (2100, ex_resp x12 x35 "b")].
 Example C16_history_example :
-  (forall std, udp_history std false 500 (Some 300) zero_jit ex_qs ex_queue =
+  (forall std, udp_history std false 500 (Some 300) zero_jit zero_jit ex_qs ex_queue =
      [ ([1000; 1300], Err Timeout, 1500);
        ([2000], Ok (ex_resp x12 x35 "b", 33152), 2100);
        ([3000; 3300], Err Timeout, 3500) ]) /\ sorted_from 0 ex_queue.
